@@ -44,7 +44,7 @@ def work(tier, seed):
             items.append({"blocks": [list(x) for x in bl], "grid": kind, "scalars": False,
                           "small_easy": kind in ("float32", "mixed", "mixed_narrow", "mixed_narrow_neg", "mixed_f32", "negated", "ulp", "uint"), "mutated": kind == "irregular"})
         if tier != "quick" or sum(a + c for a, c in bl) <= 4:
-            for kind in ot.MIXED_KINDS[1:]:
+            for kind in ot.MIXED_KINDS[1:] + ["unit"]:
                 items.append({"blocks": [list(x) for x in bl], "grid": kind, "scalars": False, "small_easy": True, "mutated": False})
     for n in (ot.LADDER_QUICK if tier == "quick" else ot.LADDER_THOROUGH):
         for tf in (True, False):
